@@ -6,6 +6,94 @@ COMMON_TB = [
     "Rust std/alloc/core, rustc, cargo; the harness's Modeled constructor table and canonicaliser",
 ]
 
+import os, json, subprocess, shutil
+
+
+def empty_tie():
+    return {"disagreements": [], "bad_ops": [], "oracle": [], "stats": {}, "lines": 0, "nontrivial": 0, "samples": []}
+
+
+def c17_run(c):
+    """Generated definitions (valid and minimally different invalid twins) compiled with ONE
+    `cargo check --message-format=json` per shard against the crate's derive; diagnostics are
+    attributed to programs by file; rejected(p) is compared with the model's `accepts`."""
+    tie = empty_tie()
+    gen = os.path.join(c["verif"], "gen", "gen_programs.py")
+    shards = 5 if c["thorough"] else 1
+    n = 300 if c["thorough"] else 120
+    faults = {}
+    for sh in range(shards):
+        d = os.path.join(c["outdir"], "c17-%d" % sh)
+        shutil.rmtree(d, ignore_errors=True)
+        r = c["run"](["python3", gen, "compile", "--seed", str(c["seed"] * 100 + sh), "--n", str(n), "--out", d],
+                     env={"VERIF_REPO": c["repo"]})
+        if r.returncode != 0:
+            return {"crashed": "program generator failed: " + r.stdout[-500:]}
+        shutil.copyfile(os.path.join(c["repo"], "Cargo.lock"), os.path.join(d, "Cargo.lock"))
+        tdir = os.path.join(os.path.dirname(c["outdir"].rstrip("/")), "..", "c17-target") if False else os.path.join(c["build"], "c17-target-" + ("alt" if c["repo"] != "/repo" else "main"))
+        p = subprocess.run(["cargo", "check", "--offline", "--message-format=json"], cwd=d, stdout=subprocess.PIPE,
+                           stderr=subprocess.PIPE, text=True, env=dict(os.environ, CARGO_NET_OFFLINE="true", CARGO_TARGET_DIR=tdir), timeout=3000)
+        exp = json.load(open(os.path.join(d, "expect.json")))
+        rejected = {}
+        other_errors = []
+        for l in p.stdout.split("\n"):
+            try:
+                m = json.loads(l)
+            except Exception:
+                continue
+            if m.get("reason") != "compiler-message" or m["message"]["level"] != "error":
+                continue
+            msg = m["message"]
+
+            def files(spans):
+                out = []
+                for sp in spans:
+                    out.append(sp["file_name"])
+                    e = sp.get("expansion")
+                    while e:
+                        out.append(e["span"]["file_name"])
+                        e = e["span"].get("expansion")
+                return out
+            fs = files(msg["spans"])
+            for ch in msg.get("children", []):
+                fs += files(ch["spans"])
+            hit = [f for f in fs if f.startswith("src/p") and f.endswith(".rs")]
+            if hit:
+                for f in hit:
+                    rejected.setdefault(f[4:-3], msg["message"][:160])
+            elif "aborting due to" not in msg["message"] and "could not compile" not in msg["message"]:
+                other_errors.append(msg["message"][:200])
+        if p.returncode != 0 and not rejected and not other_errors:
+            return {"crashed": "cargo check of the generated programs failed without attributable diagnostics: " + p.stderr[-800:]}
+        if other_errors:
+            tie["oracle"].append({"property": "C17", "what": "diagnostics not attributable to a generated program: " + "; ".join(other_errors[:3])})
+        reqs = "\n".join(e["request"] for e in exp) + "\n"
+        m = subprocess.run([c["model"]], input=reqs, stdout=subprocess.PIPE, text=True)
+        answers = m.stdout.split("\n")
+        for e, a in zip(exp, answers):
+            tie["lines"] += 1
+            rj = e["name"] in rejected
+            impl = "reject" if rj else "accept"
+            if e["fault"]:
+                faults[e["fault"]] = faults.get(e["fault"], 0) + 1
+            if a == "bad-op":
+                tie["bad_ops"].append({"line": tie["lines"], "request": e["request"][:300]})
+            elif a != impl:
+                src = open(os.path.join(d, "src", e["name"] + ".rs")).read()
+                tie["disagreements"].append({"line": tie["lines"], "stream": "c17", "request": e["request"], "impl": impl + (": " + rejected[e["name"]] if rj else ""),
+                                             "model": a, "program": src[:1500], "planted_fault": e["fault"]})
+            # oracle: the generator's own expectation (a planted fault must be rejected, a fault-free twin must compile)
+            if (e["fault"] is not None) != rj:
+                src = open(os.path.join(d, "src", e["name"] + ".rs")).read()
+                tie["oracle"].append({"property": "C17", "what": "definition with planted fault %r was %s by the compiler: %s" % (e["fault"], "rejected" if rj else "ACCEPTED", src[:600].replace("\n", " "))})
+            if len(tie["samples"]) < 10 and tie["lines"] % 17 == 1:
+                tie["samples"].append({"request": e["request"][:200], "compiler": impl, "model": a, "planted_fault": e["fault"]})
+        tie["nontrivial"] += len(set(e["request"] for e in exp))
+    tie["stats"] = {"programs": tie["lines"], "shards": shards}
+    tie["stats"].update({"fault:" + k: v for k, v in faults.items()})
+    return tie
+
+
 PROPS = {
     "C04": {
         "streams": ["compact"],
@@ -146,5 +234,15 @@ PROPS = {
         "level_note": "Trusted: as C01; the program generator is the ground truth of what a generated definition is (it emits the Rust source and the surface descriptor from the same record). Skipped fields are not part of the model value: that they decode to Default is checked by the harness oracle. Bound generation (trait_bounds.rs) is covered only as 'the generated programs compile'. Finding F2 was a genuine defect, repaired by a fix: commit.",
         "trusted_base": COMMON_TB + ["gen/gen_programs.py (definition -> Rust source + surface descriptor)"],
         "assumptions": ["as C02"],
+    },
+    "C17": {
+        "streams": [],
+        "custom": c17_run,
+        "disagreement_is_violation": True,
+        "rule": "generated enum definitions over {index attribute, explicit discriminant, implicit position, skip} assignments with indices drawn boundary-biased from 0..=300 (0,1,2,3,254,255,256,257,300 and random; rustc's own discriminant rules respected), each paired with a minimally different twin (an invalid one repaired, a valid one given a collision); the finite set of attribute-conflict cases (all 8 subsets of skip/compact/encoded_as on a struct field and on a variant field), a union, 256 vs 257 encodable variants with and without skipped ones, and the CompactAs shapes (tuple / named-with-skipped / two fields / unit / only-skipped / enum); every program derives Encode and Decode together; one module file per program in one scratch crate, compiled with ONE cargo check --message-format=json per shard (120 programs quick, 5x300 thorough) against the crate's derive; rejected(p) := some error diagnostic lies in p's file (through the macro-expansion span chain); compared with the model's accepts(p) on the program's surface descriptor; oracle: a planted fault must be rejected and a fault-free twin must compile. non-trivial = distinct program",
+        "level_text": "Proved in Lean: the transliterated decision logic of the derive (per-field attribute exclusivity, try_get_variants' > 256 bound, variant_index precedence, the generated const block's search_for_invalid_index and the nested-loop duplicate_info) accepts a definition IFF it is valid in the property's sense - no two encodable variants share an index (whether from index attributes, discriminants or implicit positions among the NON-skipped variants), no index exceeds 255, at most 256 encodable variants, at most one of skip/compact/encoded_as per field, not a union; duplicate_info is complete (reports iff not Nodup); derive(CompactAs) is accepted iff the input is a struct with exactly one non-skipped field. The decision model is tied to the real derive + rustc by compiling generated programs and comparing accept/reject per program.",
+        "level_note": "Partial by nature: that rustc expands the macro, evaluates the generated const block and reports its panic as a compile error is the compiler's behaviour, observed (per program, by file attribution of JSON diagnostics), not proved. Bound generation (trait_bounds.rs) enters only through 'valid twins compile'. Field types are u32 throughout (C05 covers type variety).",
+        "trusted_base": COMMON_TB + ["rustc / cargo check JSON diagnostics; the program generator (definition -> source + surface descriptor)"],
+        "assumptions": ["diagnostics carry the file of the offending program somewhere in their expansion span chain"],
     },
 }
